@@ -452,6 +452,13 @@ class Interp:
         ta, tb = a[6], b[6]
         if ta is not None and ta == tb:
             return const(1 if op in ("Eq", "Le", "Ge") else 0, 1)
+        # b = a + n for a known n >= 0 (the addition has its own overflow obligation): a <= b, and a < b when n > 0
+        d = self.term_offset(ta, tb)
+        if d is not None:
+            n = d
+            truth = {"Le": n >= 0, "Lt": n > 0, "Ge": n <= 0, "Gt": n < 0, "Eq": n == 0, "Ne": n != 0}.get(op)
+            if truth is not None:
+                return const(1 if truth else 0, 1)
         if not st.rels:
             return r
         if ta is not None and tb is not None:
@@ -466,6 +473,25 @@ class Interp:
                 if op == "Lt":
                     return const(0, 1)
         return r
+
+    @staticmethod
+    def term_offset(ta, tb):
+        """n when tb is the term ta + n (n an integer constant, either operand order), -n when ta is tb + n; else None"""
+        def split(t):
+            """t as (base, constant): x + k -> (x, k), k -> (None, k), otherwise (t, 0)"""
+            if t[0] == "k" and t[1] is not None:
+                return (None, t[1])
+            if t[0] == "Add":
+                for x, y in ((t[1], t[2]), (t[2], t[1])):
+                    if y[0] == "k" and y[1] is not None:
+                        return (x, y[1])
+            return (t, 0)
+        if ta is None or tb is None:
+            return None
+        (ba, ka), (bb, kb) = split(ta), split(tb)
+        if ba == bb:
+            return kb - ka
+        return None
 
     def term_lo(self, t, st):
         if t[0] == "k":
@@ -990,6 +1016,9 @@ class Interp:
         for name in (resolved, callee):
             if name and name in self.by_path and depth < self.inline_depth:
                 target = self.by_path[name]
+                if target.kind == "Closure" and len(args) == 2 and is_agg(args[1]) and args[1][1] == "tuple" and target.arg_count == 1 + len(args[1][4]):
+                    # a closure called directly (`read_field(8)`): "rust-call" ABI - the arguments arrive as one tuple
+                    args = [args[0]] + list(args[1][4])
                 return self.run(target, args, st, depth + 1)
         # closures invoked through Fn* traits
         if callee and callee.split("::")[-1] in ("call_once", "call_mut", "call") and "ops::function" in (t.get("callee") or "") or (callee and callee.endswith(("FnOnce::call_once", "FnMut::call_mut", "Fn::call"))):
